@@ -276,7 +276,8 @@ func init() {
 			h := &hookCounter{stop: b.s.int1("hookstop", 0)}
 			args := []interface{}{bfgs.MaxIterations{Value: b.s.int1("iter", 5)}}
 			if b.bit(0) {
-				H := b.inMat(b.s.Kind, n, n, "Hessian")
+				hn := n + b.s.int1("hdim", 0) // round 7: dimension mismatch regime (edge.go)
+				H := b.inMat(b.s.Kind, hn, hn, "Hessian")
 				b.mat("Hessian.Value", "input", H)
 				args = append(args, bfgs.Hessian{Value: H})
 			}
